@@ -16,13 +16,14 @@ if os.path.exists(res):
     det = sum("DETECTED" in r for r in rows)
     out.append(f"\n{det} of {len(rows)} (mutant, property) pairs detected on two consecutive runs.\n")
 out.append("\n#### Changes written by independent sub-agents (`seeded/<ID>-<X>/`, confirmed and run by `seeded/verify.py`)\n")
-out.append("A/B: the author saw only the property text and a scratch worktree. C/D (adversarial round): the author was "
-           "additionally told which bounds the checks enumerate and asked for changes outside them.\n\n")
-out.append("| change | confirmed (49 tests pass, demo fails with / passes without) | detected by | signatures | what it needs (from notes.md) |\n|---|---|---|---|---|\n")
+out.append("A/B and E: the author saw only the property text and a scratch worktree (E also the earlier notes). C/D (adversarial "
+           "round): the author was additionally told which bounds the checks enumerate and asked for changes outside them. "
+           "A change that was missed at first has a second record, `meta_before_strengthening.json`, next to `meta.json`.\n\n")
+out.append("| change | confirmed (49 tests pass, demo fails with / passes without) | detected by | before strengthening | signatures | what it needs (from notes.md) |\n|---|---|---|---|---|---|\n")
 for d in sorted(glob.glob(os.path.join(V, "seeded", "C*-*"))):
     mp = os.path.join(d, "meta.json")
     if not os.path.exists(mp):
-        out.append(f"| {os.path.basename(d)} | (not verified yet) | | | |\n")
+        out.append(f"| {os.path.basename(d)} | (not verified yet) | | | | |\n")
         continue
     m = json.load(open(mp))
     sigs = []
@@ -36,7 +37,12 @@ for d in sorted(glob.glob(os.path.join(V, "seeded", "C*-*"))):
             txt = open(notes).read()
             mm = re.search(r"(?i)(manifest|trigger|needs?)[^\n]*\n+(.{20,260})", txt, re.S)
             need = " ".join((mm.group(2) if mm else txt[:200]).split())[:230]
-    out.append(f"| {m['name']} | {'yes' if m['confirmed'] else 'NO'} | {', '.join(m['detected_by']) or '**missed**'} | {', '.join(sigs)[:160]} | {need.replace('|', '/')} |\n")
+    bp = os.path.join(d, "meta_before_strengthening.json")
+    before = ""
+    if os.path.exists(bp):
+        b = json.load(open(bp))
+        before = ", ".join(b["detected_by"]) or "missed"
+    out.append(f"| {m['name']} | {'yes' if m['confirmed'] else 'NO'} | {', '.join(m['detected_by']) or '**missed**'} | {before} | {', '.join(sigs)[:160]} | {need.replace('|', '/')} |\n")
 text = "".join(out)
 p = os.path.join(V, "DESIGN.md")
 s = open(p).read()
